@@ -269,10 +269,45 @@ static void check_mpz(ByteSource& in, CaseInfo& ci) {
   }
 }
 
-static void check(ByteSource& in, CaseInfo& ci) { if (in.pick({3, 2}) == 0) check_mpn(in, ci); else check_mpz(in, ci); }
+// ---- the three-operand helpers of the anchor files (internal; used by the Toom code): every same-or-separate operand pattern ----
+extern "C" { mp_limb_t __gmpn_addadd_n(mp_ptr, mp_srcptr, mp_srcptr, mp_srcptr, mp_size_t); int __gmpn_addsub_n(mp_ptr, mp_srcptr, mp_srcptr, mp_srcptr, mp_size_t); mp_limb_t __gmpn_subadd_n(mp_ptr, mp_srcptr, mp_srcptr, mp_srcptr, mp_size_t); }
+static void check_helpers(ByteSource& in, CaseInfo& ci) {
+  unsigned f = in.pick({3, 3, 3, 2}); static const char* names[] = {"mpn_addadd_n", "mpn_addsub_n", "mpn_subadd_n", "mpn_sumdiff_n"}; ci.label(names[f]);
+  size_t n = in.flag() ? (size_t)in.range(1, 24) : (size_t)in.logrange(1, std::max<size_t>(1, expcap(in.scale, 6, 2000))); if (n >= 2) ci.nontrivial = true;
+  Limbs X = limbs(in, n), Y = limbs(in, n), Zv = limbs(in, n); if (in.chance(60)) { uint64_t top = in.flag() ? ~0ull : 1ull << 63; X[n - 1] |= top; Y[n - 1] |= top; Zv[n - 1] |= top; }
+  Int B = ref::pow2(64 * n), x = Int::from_limbs(X.data(), n), y = Int::from_limbs(Y.data(), n), z = Int::from_limbs(Zv.data(), n);
+  if (f <= 2) {
+    // which sources are the destination itself (bit 0: x, bit 1: y, bit 2: z); sources that are the destination necessarily hold the same value
+    unsigned pat = (unsigned)in.range(0, 7); Guarded t(n), bx(n), by(n), bz(n); Limbs D = (pat & 1) ? X : (pat & 2) ? Y : (pat & 4) ? Zv : limbs(in, n);
+    if (pat & 1) X = D; if (pat & 2) Y = D; if (pat & 4) Zv = D; x = Int::from_limbs(X.data(), n); y = Int::from_limbs(Y.data(), n); z = Int::from_limbs(Zv.data(), n);
+    memcpy(t.p(), D.data(), n * 8); memcpy(bx.p(), X.data(), n * 8); memcpy(by.p(), Y.data(), n * 8); memcpy(bz.p(), Zv.data(), n * 8);
+    const uint64_t* px = (pat & 1) ? t.p() : bx.p(); const uint64_t* py = (pat & 2) ? t.p() : by.p(); const uint64_t* pz = (pat & 4) ? t.p() : bz.p();
+    bool same_src = !(pat & 3) && in.chance(40); if (same_src) { py = px; y = x; Y = X; }   // two sources may also be the same separate operand
+    ci.d("%s n=%zu pattern t==%s%s%s%s ", names[f], n, (pat & 1) ? "x" : "", (pat & 2) ? "y" : "", (pat & 4) ? "z" : "", pat ? "" : "none"); if (pat) ci.label("helper:dest_is_source"); if (pat == 7 || pat == 6 || pat == 5 || pat == 3) ci.label("helper:dest_is_two_sources");
+    Int e = f == 0 ? x + y + z : f == 1 ? x + y - z : x - y - z; Int q, r; ref::fdivrem(e, B, q, r);
+    long long ret = f == 0 ? (long long)__gmpn_addadd_n(t.p(), px, py, pz, (long)n) : f == 1 ? (long long)__gmpn_addsub_n(t.p(), px, py, pz, (long)n) : (long long)__gmpn_subadd_n(t.p(), px, py, pz, (long)n);
+    long long eret = f == 2 ? -(q.neg ? -(long long)q.abs().low() : (long long)q.low()) : (q.neg ? -(long long)q.abs().low() : (long long)q.low());
+    REQUIRE(t.intact() && bx.intact() && by.intact() && bz.intact(), "%s(n=%zu): wrote outside its operands", names[f], n);
+    REQUIRE(Int::from_limbs(t.p(), n) == r, "%s(n=%zu, pattern %u): wrong result limbs", names[f], n, pat);
+    REQUIRE(ret == eret, "%s(n=%zu, pattern %u): returned %lld, expected %lld", names[f], n, pat, ret, eret);
+    if (!(pat & 1)) REQUIRE(!memcmp(bx.p(), X.data(), n * 8), "%s: source x modified", names[f]); if (!(pat & 2) && !same_src) REQUIRE(!memcmp(by.p(), Y.data(), n * 8), "%s: source y modified", names[f]); if (!(pat & 4)) REQUIRE(!memcmp(bz.p(), Zv.data(), n * 8), "%s: source z modified", names[f]);
+  } else {
+    // s = x + y, d = x - y; s and d distinct; each may be x or y
+    unsigned ps = (unsigned)in.range(0, 2), pd = (unsigned)in.range(0, 2); if (ps && ps == pd) pd = 0;   // 0 separate, 1 is x, 2 is y
+    Guarded bs(n), bd(n), bx(n), by(n); memcpy(bx.p(), X.data(), n * 8); memcpy(by.p(), Y.data(), n * 8);
+    uint64_t* sp = ps == 1 ? bx.p() : ps == 2 ? by.p() : bs.p(); uint64_t* dp = pd == 1 ? bx.p() : pd == 2 ? by.p() : bd.p();
+    ci.d("mpn_sumdiff_n n=%zu s is %s, d is %s ", n, ps == 1 ? "x" : ps == 2 ? "y" : "separate", pd == 1 ? "x" : pd == 2 ? "y" : "separate"); if (ps || pd) ci.label("helper:dest_is_source"); if (ps && pd) ci.label("helper:dest_is_two_sources");
+    Int qs, rs, qd, rd; ref::fdivrem(x + y, B, qs, rs); ref::fdivrem(x - y, B, qd, rd);
+    uint64_t ret = mpn_sumdiff_n(sp, dp, bx.p(), by.p(), (long)n); uint64_t eret = 2 * qs.low() + (qd.neg ? 1 : 0);
+    REQUIRE(bs.intact() && bd.intact() && bx.intact() && by.intact(), "mpn_sumdiff_n(n=%zu): wrote outside its operands", n);
+    REQUIRE(Int::from_limbs(sp, n) == rs, "mpn_sumdiff_n(n=%zu): wrong sum limbs", n); REQUIRE(Int::from_limbs(dp, n) == rd, "mpn_sumdiff_n(n=%zu): wrong difference limbs", n);
+    REQUIRE(ret == eret, "mpn_sumdiff_n(n=%zu): returned %llu, expected 2*carry+borrow = %llu", n, (unsigned long long)ret, (unsigned long long)eret);
+  }
+}
+static void check(ByteSource& in, CaseInfo& ci) { if (in.chance(26)) { check_helpers(in, ci); return; } if (in.pick({3, 2}) == 0) check_mpn(in, ci); else check_mpz(in, ci); }
 
 namespace eng {
 PropDef g_prop = {"C03",
-  "Cases: one call of one of the 14 mpn functions (lengths 1..40 dense, ..300, log-uniform to the scale cap; limb styles uniform/runs/palette/all-ones/single-bit/low-zero; constructed full carry and borrow chains; in-place and the permitted partial overlaps rp=sp+k for lshift/copyd, rp=sp-k for rshift/copyi inside one arena) or of the 10 mpz functions (all sign combinations, equal magnitude, one-bit difference, |a|=ui, aliasing of destination and sources). Oracle: refint arithmetic on the limb vectors, returned carry/borrow/shifted-out limb, guard limbs, sources unchanged. Non-trivial: length >= 2 (mpn) or an operand of >= 2 limbs / a size-changing result (mpz). Distinct = hash of all decoded choices.",
-  check, nullptr, {"carry_full_chain", "overlap_partial_lshift", "overlap_partial_rshift", "cancel_to_zero", "inplace"}};
+  "Cases: one call of a three-operand helper of the anchor files (mpn_addadd_n x+y+z, mpn_addsub_n x+y-z, mpn_subadd_n x-y-z with every pattern of sources being the destination, mpn_sumdiff_n with s and d separate or equal to a source; result limbs and the returned carry/borrow count), or of one of the 14 mpn functions (lengths 1..40 dense, ..300, log-uniform to the scale cap; limb styles uniform/runs/palette/all-ones/single-bit/low-zero; constructed full carry and borrow chains; in-place and the permitted partial overlaps rp=sp+k for lshift/copyd, rp=sp-k for rshift/copyi inside one arena) or of the 10 mpz functions (all sign combinations, equal magnitude, one-bit difference, |a|=ui, aliasing of destination and sources). Oracle: refint arithmetic on the limb vectors, returned carry/borrow/shifted-out limb, guard limbs, sources unchanged. Non-trivial: length >= 2 (mpn) or an operand of >= 2 limbs / a size-changing result (mpz). Distinct = hash of all decoded choices.",
+  check, nullptr, {"carry_full_chain", "overlap_partial_lshift", "overlap_partial_rshift", "cancel_to_zero", "inplace", "mpn_addadd_n", "mpn_addsub_n", "mpn_subadd_n", "mpn_sumdiff_n", "helper:dest_is_two_sources"}};
 }
